@@ -135,7 +135,7 @@ Choose(i) ==
 (* Threat-actor agent.  Between two consecutive samples the stage          *)
 (*   stays | advances by exactly one (NotStarted -> 1, k -> k+1,           *)
 (*   nStages -> Succeeded) | goes to a terminal value | returns to the     *)
-(*   start - only from a terminal value and only when repeat_kill_chain.   *)
+(*   start - only when repeat_kill_chain says so.                          *)
 
 Advance(s, s1) ==
     \/ s = NotStarted /\ s1 = 1
@@ -148,14 +148,17 @@ Advance(s, s1) ==
 Fail(s, s1) == s # Failed /\ s1 = Failed
 FailAllowed == ~repeatStages
 
-Restart(s, s1) == s \in Terminal /\ s1 \in {NotStarted, 1}
-RestartAllowed == repeatChain
+\* back to the start.  From a terminal value this is the restart proper; from a stage it is the end of
+\* the chain and the restart in one step (the agent gives up - or finishes the last stage - and starts
+\* again within the same turn), so it needs what both halves need.
+Restart(s, s1) == s1 \in {NotStarted, 1} /\ s # s1 /\ s # NotStarted
+RestartAllowed(s) == repeatChain /\ (s \in Terminal \/ s = nStages \/ FailAllowed)
 
 StageMove(s, s1) ==
     \/ s1 = s
     \/ Advance(s, s1)
     \/ Fail(s, s1) /\ FailAllowed
-    \/ Restart(s, s1) /\ RestartAllowed
+    \/ Restart(s, s1) /\ RestartAllowed(s)
 
 \* after concluding without repeat the agent only does nothing (and stays concluded)
 Concluded == stage \in Terminal /\ ~repeatChain
